@@ -114,7 +114,9 @@ class HypercubicPeriodicBoundaries(PeriodicBoundaries):
         float
             The position entry corrected for periodic boundaries.
         """
-        return position_entry % system_length
+        position_entry %= system_length
+        # For tiny negative floats, the modulo operation rounds up to the system length itself, which is not in [0, L).
+        return position_entry if position_entry != system_length else 0.0
 
     @staticmethod
     def separation_vector(reference_position: Sequence[float],
